@@ -477,10 +477,16 @@ Sorted(s, r, mode) ==
          IF mode # "sorted" /\ cfg.par.n <= 0 THEN [s |-> To("end"), eff |-> Return(<<>>)]  \* nothing is consumed
          ELSE [s |-> [pc |-> "got", acc |-> <<>>], eff |-> Pull(1)]
     [] s.pc = "got" ->
-         IF r.k = "stop" THEN Finish(s.acc)
+         IF r.k = "stop"
+         THEN \* heapq fills its heap from zip(range(n), it) and then goes on with `for elem in it`: an input that ends
+              \* during the filling (0 < len < n, n # 1) is asked a second time before the result is built
+              IF mode # "sorted" /\ cfg.par.n # 1 /\ Len(s.acc) > 0 /\ Len(s.acc) < cfg.par.n
+              THEN [s |-> [pc |-> "again", acc |-> s.acc], eff |-> Pull(1)]
+              ELSE Finish(s.acc)
          ELSE IF cfg.par.key
               THEN [s |-> [pc |-> "keyed", acc |-> s.acc, x |-> r.v], eff |-> Call("key", <<r.v>>)]
               ELSE [s |-> [pc |-> "got", acc |-> Append(s.acc, [x |-> r.v, key |-> r.v.k])], eff |-> Pull(1)]
+    [] s.pc = "again" -> Finish(s.acc)
     [] s.pc = "keyed" ->
          [s |-> [pc |-> "got", acc |-> Append(s.acc, [x |-> s.x, key |-> r.v])], eff |-> Pull(1)]
 
@@ -812,7 +818,7 @@ Exhausted == Done /\ LastEv \in {"end", "return"}
 \* never pulled again
 NoUseAfterFault == fault # 0 => Done /\ nuse = fault
 NoPullAfterStop ==
-  (cfg.tool \notin {"batched", "anext"} /\ ~Aliased) =>
+  (cfg.tool \notin {"batched", "anext", "nlargest", "nsmallest"} /\ ~Aliased) =>     \* (those ask again, like their counterparts)
   \A i \in 0..NSrc :
      LET p == PullsOf(i) IN \A j \in 1..(Len(p) - 1) : p[j].res = "item"
 
